@@ -264,6 +264,8 @@ func makeField(v reflect.Value, params fieldParameters) (encoder, error) {
 						return makeField(val.Field(present), tempParams)
 					}
 					tag.constructed = true
+					// a tagged CHOICE is always explicitly tagged: the enclosing tag is the only wrapper
+					params.explicitTag = false
 					var err error
 					berType.value, err = makeField(val.Field(present), tempParams)
 					if err != nil {
